@@ -1,0 +1,67 @@
+//go:build verif
+
+package entry
+
+import (
+	"berty.tech/go-ipfs-log/iface"
+	cid "github.com/ipfs/go-cid"
+)
+
+// VerifQueueItem is one element of the fetch queue as seen by a verification harness.
+type VerifQueueItem struct {
+	Index int
+	Hash  cid.Cid
+}
+
+// VerifFetchEvent describes the fetcher's state at an observation / yield point.
+// Kind is one of: launch, acquire, wait, woken, fetched, processed, done.
+type VerifFetchEvent struct {
+	Fetcher         *Fetcher
+	Kind            string
+	Hash            cid.Cid
+	Queue           []VerifQueueItem
+	Results         []cid.Cid
+	TasksInProgress int
+	MinClock        int
+	MaxClock        int
+	Length          int
+	OK              bool // fetched: the block was retrieved and decoded; processed: the entry was admitted
+}
+
+// VerifFetchHook, when set by a harness, is called at every observation point of
+// the fetcher; it may block (yield point). It is nil in normal builds of tests.
+var VerifFetchHook func(ev *VerifFetchEvent)
+
+func verifFetch(f *Fetcher, kind string, hash cid.Cid, queue processQueue, results []iface.IPFSLogEntry, tasks int, ok bool) {
+	hook := VerifFetchHook
+	if hook == nil {
+		return
+	}
+
+	ev := &VerifFetchEvent{
+		Fetcher:         f,
+		Kind:            kind,
+		Hash:            hash,
+		TasksInProgress: tasks,
+		Length:          f.length,
+		OK:              ok,
+	}
+
+	// "fetched" is emitted outside the process mutex: do not touch shared state there
+	if kind != "fetched" {
+		ev.MinClock = f.minClock
+		ev.MaxClock = f.maxClock
+	}
+
+	if pq, isPQ := queue.(*priorityQueue); isPQ && pq != nil {
+		for _, it := range *pq {
+			ev.Queue = append(ev.Queue, VerifQueueItem{Index: it.index, Hash: it.hash})
+		}
+	}
+
+	for _, e := range results {
+		ev.Results = append(ev.Results, e.GetHash())
+	}
+
+	hook(ev)
+}
